@@ -8,7 +8,7 @@ import units, verus_run
 
 ready = set(json.load(open(os.path.join(HERE, "contracts", "ready.json"))))
 if "--summary" in sys.argv:
-    print("| id | level | Verus | Kani complete/modular | Kani bounded | decided (short) | not decided (short) |")
+    print("| id | level | Verus (unbounded) | Kani complete/modular | bounded | decided (short) | not decided (short) |")
     print("|---|---|---|---|---|---|---|")
     tot = [0, 0, 0]
     for pid in sorted(os.listdir(os.path.join(HERE, "contracts"))):
@@ -17,13 +17,15 @@ if "--summary" in sys.argv:
             continue
         p = json.load(open(pj))
         mods, us = units.load_kani(pid)
-        nv = len(verus_run.load(pid))
+        vt = verus_run.load(pid)
+        nvb = sum(1 for t in vt if re.search(r"^//! class: bounded", open(t).read(), flags=re.M))
+        nv = len(vt) - nvb
         nc = sum(1 for u in us if u.cls in ("complete", "modular") and getattr(u, "role", "contract") != "witness")
-        nb = sum(1 for u in us if u.cls == "bounded" and getattr(u, "role", "contract") != "witness")
+        nb = sum(1 for u in us if u.cls == "bounded" and getattr(u, "role", "contract") != "witness") + nvb
         tot[0] += nv; tot[1] += nc; tot[2] += nb
         short = lambda t: (t[:330] + " ...") if len(t) > 334 else t
         print("| %s | %s | %d | %d | %d | %s | %s |" % (pid, p.get("level"), nv, nc, nb, short(p.get("decided", "")).replace("|", "\\|"), short(p.get("undecided", "")).replace("|", "\\|")))
-    print("\nTotals: %d Verus units, %d Kani complete/modular units, %d Kani bounded units (witness units of known findings not counted)." % tuple(tot))
+    print("\nTotals: %d Verus units, %d Kani complete/modular units, %d bounded units (Kani, plus Verus units over pinned inputs; witness units of known findings not counted)." % tuple(tot))
     sys.exit(0)
 for pid in sorted(os.listdir(os.path.join(HERE, "contracts"))):
     pj = os.path.join(HERE, "contracts", pid, "property.json")
